@@ -1892,6 +1892,8 @@ impl ProxyConfiguration for TcpProxy {
             .get(owned.cluster_id.as_ref().unwrap())
             .and_then(|c| c.proxy_protocol);
 
+        #[cfg(feature = "verif-hooks")]
+        crate::verif::tune_socket(&frontend_sock, "front");
         if let Err(e) = frontend_sock.set_nodelay(true) {
             error!(
                 "{} error setting nodelay on front socket({:?}): {:?}",
